@@ -1,7 +1,7 @@
 # Per-property metadata for ./check and gen_manifest.py: which worker build,
 # budgets, evidence texts, level claims.
 
-HOOK_COMMITS = ["e6ca9ab"]
+HOOK_COMMITS = ["e6ca9ab", "6ac545b"]
 
 REAL_A = ["package serf (all of it)", "memberlist v0.5.4 (passive: probe/gossip/push-pull timers off; stream join real)", "go-msgpack"]
 SIM_A = ["network (simnet: in-memory packets, net.Pipe streams)", "clock (testing/synctest fake clock)",
@@ -192,6 +192,12 @@ PROPS["C01"] = A("cases are seeded timed plans over 3-5 real Serf nodes with ful
 # (before these rewrites about 1 seed in 40 did).
 for _p in ("C06", "C07", "C28", "C34"):
     PROPS[_p]["replay"] = "exact (recorded goroutine schedule; select choice, map order and timer-goroutine identity are derived from the case seed)"
+# C29 has two parts: the writers under the yield scheduler (engine B), and part E (engine E, plain
+# build): the log buffer as the agent command really sets it up (setupLoggers through the verif-tagged
+# accessor) behind a real AgentIPC, with a monitor attaching over a simulated connection.
+PROPS["C29"]["parts"] = [{"wprop": "C29", "build": "inst", "frac": 0.85}, {"wprop": "C29E", "build": "plain", "frac": 0.15}]
+PROPS["C29"]["engine"] = "B yield scheduler (writers) + E agent/IPC simulator (part E: the agent's own log set-up and IPC monitor)"
+PROPS["C29"]["rule"] += "; part E: 0-1600 lines logged through the agent's own log set-up, then a monitor attaches through the IPC server (a second one later), then 0-40 more lines"
 PROPS["C25"]["selftest_tolerance"] = 0.0
 PROPS["C25"]["replay_attempts"] = 6  # part A: the slow-client race depends on Go's random select choice (DESIGN 10.1)
 PROPS["C25"]["replay"] = "part B exact (recorded goroutine schedule); part A exact, except the slow-client race whose manifestation depends on Go's random select choice in the un-instrumented build (reproduces with probability 2/3 per round; the driver retries up to 6 times)"
